@@ -193,9 +193,25 @@ fn op_begin(me: usize, kind: &'static str, index: usize) {
 }
 
 /// Global integrity check of every live range (sound because execution is serialised).
-fn check_intact(c: &mut Core, who: usize, when: &str) {
+fn check_intact(c: &mut Core, who: usize, when: &str, cursor: Option<u32>) {
     c.intact_checks += 1;
     let base = c.base;
+    // every live range lies below the bump cursor (raw read of the header word, no hook)
+    if let Some(cur) = cursor {
+        let mut above: Option<LiveRange> = None;
+        for l in c.live.iter() {
+            if l.cap > 0 && l.off + l.cap > cur {
+                above = Some(l.clone());
+                break;
+            }
+        }
+        if let Some(l) = above {
+            let msg = format!("live range #{} [{},+{}) of T{} lies above the cursor allocated()={} (noticed by T{} {}): the next fresh allocation will overlap it", l.hid, l.off, l.cap, l.owner, cur, who, when);
+            c.viol(&["C02"], "live-range-above-cursor".into(), msg);
+            let hid = l.hid;
+            c.live.retain(|x| x.hid != hid);
+        }
+    }
     let mut bad: Option<(LiveRange, usize, u8)> = None;
     for l in c.live.iter() {
         if l.cap == 0 || l.expected.is_empty() {
@@ -300,8 +316,9 @@ fn worker(me: usize, arena: sync::Arena, prog: Vec<POp>, hid_base: u64) {
         lock().refs_busy[me] = !matches!(op, POp::Fill { .. } | POp::Send { .. } | POp::Recv { .. } | POp::DiscardFreelist | POp::Leak { .. });
         yield_point(me, None);
         {
+            let cur = with_monitor(|| a.allocated() as u32);
             let mut c = lock();
-            check_intact(&mut c, me, "before its operation");
+            check_intact(&mut c, me, "before its operation", Some(cur));
         }
         match op {
             POp::Alloc { slot, .. } if slots.0[*slot].h.is_some() => {
@@ -423,11 +440,11 @@ fn worker(me: usize, arena: sync::Arena, prog: Vec<POp>, hid_base: u64) {
                 }
             }
         }
-        let refs = with_monitor(|| a.refs());
+        let (refs, cur) = with_monitor(|| (a.refs(), a.allocated() as u32));
         let mut c = lock();
         let ep = c.vc[me].0[me];
         c.last_access[me] = ep;
-        check_intact(&mut c, me, "after its operation");
+        check_intact(&mut c, me, "after its operation", Some(cur));
         // M-refs (C13): refs() == live arena values + owned handles (serialised, so exact)
         c.refs_busy[me] = false;
         if c.refs_busy.iter().any(|b| *b) {
@@ -543,6 +560,7 @@ pub fn run_once(rc: &RunCfg, replay: Option<Vec<u8>>) -> RunResult {
         c.released_by = vec![(0, 0); cap as usize];
         c.last_access = vec![0; n];
         c.family_b = rc.family_b;
+        c.cursor_addr = 0;
         c.holders = 1 + rc.threads as i64;
         c.refs_busy = vec![false; n];
         if let Strategy::Pct(d) = rc.strategy {
@@ -711,8 +729,9 @@ pub fn run_once(rc: &RunCfg, replay: Option<Vec<u8>>) -> RunResult {
         // quiescent: structural check of the free list, then drop the last arena value on main
         let snap = arena.__verif_freelist(4096);
         {
+            let cur = with_monitor(|| arena.allocated() as u32);
             let mut c = lock();
-            check_intact(&mut c, MAIN, "at the end of the run");
+            check_intact(&mut c, MAIN, "at the end of the run", Some(cur));
             if !snap.complete {
                 c.viol(&["C07", "C10"], "freelist-cycle-at-quiescence".into(), format!("free list walk did not terminate: {:?}", &snap.nodes[..snap.nodes.len().min(6)]));
             }
@@ -793,6 +812,53 @@ pub fn run_once(rc: &RunCfg, replay: Option<Vec<u8>>) -> RunResult {
     }
 }
 
+/// "top race": many threads fight for the last few bytes of fresh space (release-on-top keeps giving them back)
+pub fn top_race_cfg(rng: &mut Rng, seed: u64, run: u64) -> RunCfg {
+    let threads = 3 + rng.usize(2);
+    let mut programs = vec![];
+    for _ in 0..threads {
+        let mut p = vec![];
+        let mut occ = [false; 4];
+        for _ in 0..rng.range(20, 50) {
+            let free: Vec<usize> = (0..4).filter(|i| !occ[*i]).collect();
+            let used: Vec<usize> = (0..4).filter(|i| occ[*i]).collect();
+            if (rng.below(100) < 55 || used.is_empty()) && !free.is_empty() {
+                let slot = *rng.pick(&free);
+                occ[slot] = true;
+                p.push(POp::Alloc { slot, req: Req::Bytes(*rng.pick(&[8u32, 8, 16, 24, 9])), ty: 0, owned: rng.chance(1, 6) });
+            } else if !used.is_empty() {
+                let slot = *rng.pick(&used);
+                occ[slot] = false;
+                p.push(POp::Drop { slot });
+            }
+        }
+        programs.push(p);
+    }
+    RunCfg {
+        freelist: *rng.pick(&[FL::None, FL::None, FL::Optimistic, FL::Pessimistic]),
+        unify: rng.bool(),
+        min_seg: 20,
+        cap_room: 256,
+        retries: 1,
+        threads,
+        prelude_blocks: 0,
+        top_room: *rng.pick(&[16u32, 24, 32, 40, 48]),
+        family_b: false,
+        programs,
+        strategy: match rng.below(8) {
+            0 => Strategy::Random(50),
+            1 | 2 => Strategy::Random(70),
+            3 | 4 => Strategy::Random(85),
+            5 | 6 => Strategy::Random(95),
+            _ => Strategy::Pct(3),
+        },
+        spurious_pct: 0,
+        seed,
+        run,
+        main_drops_first: rng.bool(),
+    }
+}
+
 pub fn sample_run_cfg(rng: &mut Rng, seed: u64, run: u64, prop: &str, family_b: bool) -> RunCfg {
     let freelist = match run % 5 {
         0 | 1 => FL::Optimistic,
@@ -809,13 +875,15 @@ pub fn sample_run_cfg(rng: &mut Rng, seed: u64, run: u64, prop: &str, family_b: 
     let ops = rng.range(10, if prop == "C07" { 40 } else { 60 }) as usize;
     let teardown_heavy = prop == "C13" || (prop == "C12" && rng.chance(1, 3));
     let programs = gen_programs(rng, threads, ops, family_b, &sizes, teardown_heavy);
-    let strategy = match rng.below(10) {
+    let strategy = match rng.below(12) {
         0..=1 => Strategy::Random(5),
         2..=4 => Strategy::Random(30),
         5..=6 => Strategy::Random(70),
         7 => Strategy::Pct(1),
         8 => Strategy::Pct(2),
-        _ => Strategy::Pct(3),
+        9 => Strategy::Pct(3),
+        10 => Strategy::Delay(8, 30),
+        _ => Strategy::Delay(15, 60),
     };
     RunCfg {
         freelist,
@@ -848,10 +916,10 @@ fn report_run(out: &mut Out, prop: &str, rc: &RunCfg, r: &RunResult, extra_args:
     out.add("spurious_cas_failures_injected", r.spurious);
     out.maxv("max_accesses_without_progress_in_a_completed_call", r.max_since_write);
     out.maxv("progress_budget_B", r.b_budget);
-    out.inc(&format!("family.{}", if rc.family_b { "B" } else { "A" }));
+    out.inc(&format!("family.{}", if rc.family_b { "B" } else if rc.prelude_blocks == 0 && rc.cap_room == 256 && rc.min_seg == 20 && rc.retries == 1 { "T" } else { "A" }));
     out.inc(&format!("freelist.{}", rc.freelist.name()));
     out.inc(&format!("threads.{}", rc.threads));
-    out.inc(&format!("strategy.{}", match rc.strategy { Strategy::Random(p) => format!("random{}", p), Strategy::Pct(d) => format!("pct{}", d), Strategy::Pause { .. } => "pause".into() }));
+    out.inc(&format!("strategy.{}", match rc.strategy { Strategy::Random(p) => format!("random{}", p), Strategy::Pct(d) => format!("pct{}", d), Strategy::Pause { .. } => "pause".into(), Strategy::Delay(q, m) => format!("delay{}-{}", q, m) }));
     for (k, v) in r.windows.iter() {
         out.add(&format!("window.{}", k), *v);
     }
@@ -874,6 +942,9 @@ fn report_run(out: &mut Out, prop: &str, rc: &RunCfg, r: &RunResult, extra_args:
             out.inconclusive(&format!("harness panic in run {}: {}", rc.run, p));
             out.inc("harness_panics");
         }
+    }
+    if !r.viols.is_empty() {
+        out.inc(&format!("runs_with_violation.{}", match rc.strategy { Strategy::Random(p) => format!("random{}", p), Strategy::Pct(d) => format!("pct{}", d), Strategy::Pause { .. } => "pause".into(), Strategy::Delay(q, m) => format!("delay{}-{}", q, m) }));
     }
     for v in r.viols.iter() {
         for p in v.props.iter() {
@@ -911,7 +982,7 @@ pub fn child_main(args: &Args) -> i32 {
             break;
         }
         let mut rng = Rng::derive(seed, run, if fam == "B" { 0xB } else { 0xA });
-        let mut rc = sample_run_cfg(&mut rng, seed, run, &prop, fam == "B");
+        let mut rc = if fam == "T" { top_race_cfg(&mut rng, seed, run) } else { sample_run_cfg(&mut rng, seed, run, &prop, fam == "B") };
         if let Some(p) = args.kv.get("pause") {
             let v: Vec<usize> = p.split(',').filter_map(|x| x.parse().ok()).collect();
             if v.len() == 3 {
